@@ -6,11 +6,11 @@ def part(name, pkg, run, files, **kw):
     return d
 
 # operator-level fixture: process seam (executor), cron firing helper, queue wrapper call sites
-FX_EXTRA = {"pkg/executor": ["zz_verif_seam.go"], "pkg/schedule_manager": ["zz_verif_seam.go"]}
+FX_EXTRA = {"pkg/executor": ["zz_verif_seam.go"], "pkg/schedule_manager": ["zz_verif_seam.go"], "pkg/task/queue": ["zz_verif_seam.go"]}
 FX_INSTR = {"files": [
     {"path": "pkg/executor/executor.go", "calls": {"e.cmd.Run": "@zzCmdRun", "e.cmd.Output": "@zzCmdOutput"}},
-    {"path": "pkg/shell-operator/operator.go", "calls": {"tqs.NewNamedQueue": "@zzNewNamedQueue", "op.TaskQueues.NewNamedQueue": "@zzNewNamedQueue",
-                                                        "op.AdmissionWebhookManager.Start": "@zzNoopAdmStart", "op.ConversionWebhookManager.Start": "@zzNoopConvStart"}},
+    {"path": "pkg/shell-operator/operator.go", "calls": {"op.AdmissionWebhookManager.Start": "@zzNoopAdmStart", "op.ConversionWebhookManager.Start": "@zzNoopConvStart"}},
+    {"path": "pkg/task/queue/task_queue.go", "seams": {"TaskQueue.WithHandler": "zzSeamWithHandler"}},
 ]}
 
 # kube events manager under the scheduler: locks/channels/goroutines/racy flags are scheduling
@@ -26,7 +26,7 @@ KEM_INSTR = [
 # the whole operator under the scheduler (level 2): queues, events handler, controllers,
 # schedule manager and the kube events manager are instrumented; informers, hook processes,
 # HTTP server, metrics loops and cron's goroutine are behind seams
-OP_EXTRA = {"pkg/executor": ["zz_verif_seam.go"], "pkg/schedule_manager": ["zz_verif_seam.go"], "pkg/kube_events_manager": ["zz_verif_hub.go"]}
+OP_EXTRA = {"pkg/executor": ["zz_verif_seam.go"], "pkg/schedule_manager": ["zz_verif_seam.go"], "pkg/kube_events_manager": ["zz_verif_hub.go"], "pkg/task/queue": ["zz_verif_seam.go"]}
 # dir-level rule: a lock that appears in any other file of these packages becomes a scheduling
 # point too (a real mutex contended between scheduler threads would hang the run)
 OP_DIRS = [{"dir": d, "sync": True} for d in ("pkg/hook", "pkg/hook/controller", "pkg/hook/binding_context", "pkg/shell-operator",
@@ -35,12 +35,11 @@ OP_DIRS = [{"dir": d, "sync": True} for d in ("pkg/hook", "pkg/hook/controller",
 OP_INSTR = {"dirs": OP_DIRS, "files": KEM_INSTR + [
     {"path": "pkg/executor/executor.go", "calls": {"e.cmd.Run": "@zzCmdRun", "e.cmd.Output": "@zzCmdOutput"}},
     {"path": "pkg/shell-operator/operator.go", "time": True, "conc": True,
-     "calls": {"tqs.NewNamedQueue": "@zzNewNamedQueue", "op.TaskQueues.NewNamedQueue": "@zzNewNamedQueue",
-               "op.APIServer.Start": "@zzNoopAPIStart", "op.runMetrics": "@zzNoopRunMetrics", "op.ScheduleManager.Start": "@zzNoopSchedStart",
+     "calls": {"op.APIServer.Start": "@zzNoopAPIStart", "op.runMetrics": "@zzNoopRunMetrics", "op.ScheduleManager.Start": "@zzNoopSchedStart",
                "op.AdmissionWebhookManager.Start": "@zzNoopAdmStart", "op.ConversionWebhookManager.Start": "@zzNoopConvStart"}},
     {"path": "pkg/shell-operator/manager_events_handler.go", "conc": True},
-    {"path": "pkg/task/queue/task_queue.go", "sync": True, "time": True, "conc": True, "touch": ["started", "q.Status"]},
-    {"path": "pkg/task/queue/queue_set.go", "sync": True, "time": True, "conc": True, "touch": ["q.Status"]},
+    {"path": "pkg/task/queue/task_queue.go", "sync": True, "time": True, "conc": True, "touch": ["started", "q.Status"], "seams": {"TaskQueue.WithHandler": "zzSeamWithHandler"}},
+    {"path": "pkg/task/queue/queue_set.go", "sync": True, "time": True, "conc": True, "touch": ["q.Status"], "mapranges": ["tqs.Queues"]},
     {"path": "pkg/hook/controller/kubernetes_bindings_controller.go", "sync": True, "conc": True},
     {"path": "pkg/hook/controller/schedule_bindings_controller.go", "sync": True},
     {"path": "pkg/schedule_manager/schedule_manager.go", "conc": True},
@@ -74,7 +73,7 @@ CHECKS = {
             part("c07a", "pkg/shell-operator", "TestVerifC07a", ["zz_verif_c07_test.go"], shards={"quick": 8, "thorough": 16}),
             part("c07b", "pkg/shell-operator", "TestVerifC07b", ["zz_verif_c07_test.go"], shards={"quick": 4, "thorough": 8}, gomaxprocs=1,
                  instrument={"files": [{"path": "pkg/task/queue/task_queue.go", "sync": True, "time": True, "conc": True, "touch": ["started", "q.Status"]},
-                                       {"path": "pkg/task/queue/queue_set.go", "sync": True, "time": True, "conc": True, "touch": ["q.Status"]}]}),
+                                       {"path": "pkg/task/queue/queue_set.go", "sync": True, "time": True, "conc": True, "touch": ["q.Status"], "mapranges": ["tqs.Queues"]}]}),
         ],
     },
     "C15": {
@@ -168,6 +167,8 @@ CHECKS = {
         "parts": [
             part("c17", "pkg/shell-operator", "TestVerifC17", ["zz_verif_c17_test.go", "zz_verif_c03_test.go", "zz_verif_fixture_test.go"], shards={"quick": 13, "thorough": 16},
                  extra=OP_EXTRA, instrument=OP_INSTR, gomaxprocs=1),
+            part("c17b", "pkg/task/queue", "TestVerifC17b", ["zz_verif_c05_test.go", "zz_verif_c17b_test.go"], shards={"quick": 8, "thorough": 16}, gomaxprocs=1,
+                 instrument={"files": [{"path": "pkg/task/queue/task_queue.go", "sync": True, "time": True, "conc": True, "touch": ["started", "q.Status"]}]}),
         ],
     },
     "C04": {
@@ -205,9 +206,9 @@ CHECKS = {
         "parts": [
             part("c18", "pkg/shell-operator", "TestVerifC18", ["zz_verif_c18_test.go", "zz_verif_c04_test.go", "zz_verif_c03_test.go", "zz_verif_fixture_test.go"], shards={"quick": 16, "thorough": 16},
                  extra=OP_EXTRA, gomaxprocs=1,
-                 instrument={"files": OP_INSTR["files"] + [
+                 instrument={"dirs": OP_DIRS, "files": OP_INSTR["files"] + [
                      {"path": "/root/go/pkg/mod/golang.org/x/time@v0.11.0/rate/rate.go", "sync": True, "time": True, "conc": True, "as": "pkg/zzverif/vrate/rate.go"},
-                     {"path": "pkg/hook/hook.go", "imports": {"golang.org/x/time/rate": "github.com/flant/shell-operator/pkg/zzverif/vrate"}}]}),
+                     {"path": "pkg/hook/hook.go", "sync": True, "imports": {"golang.org/x/time/rate": "github.com/flant/shell-operator/pkg/zzverif/vrate"}}]}),
         ],
     },
     "C20": {
